@@ -8,7 +8,10 @@
 (* <<4, h, level, size class, c1, .., cn>> = a new record built by n AddAttrs  *)
 (* calls of c1..cn attributes and handled by h, <<5, h, r>> = the value of     *)
 (* record r (numbered in order of creation) handled again by h,                *)
-(* <<6, k>> = the next Write fails (1 error, 2 short write, 3 panic); rets     *)
+(* <<6, k, w>> = the next Write of writer w fails (1 error, 2 short write, 3    *)
+(* panic); <<8, k>> = the next Handle gets a context of kind k (1 live, 2      *)
+(* cancelled, 3 deadline expired); <<9, w>> = another NewJSONHybridHandler on  *)
+(* writer w (tree = the tree of each handler, tw = the writer of each tree); rets *)
 (* says how each Handle call of the path ends (0 = its line is written),       *)
 (* <<7, c>> = the environment sets the cell of the live values to c (live =    *)
 (* the kind of live value; vals in out = what each attribute of the line       *)
@@ -50,14 +53,18 @@ GNext ==
          \/ /\ ngroups < MaxGroups
             /\ WithGroup(h)
             /\ hist' = Append(hist, <<3, h>>)
-       \/ \E k \in Faults : ArmFault(k) /\ hist' = Append(hist, <<6, k>>)
+       \/ \E k \in Faults, w \in 1..NWriters : ArmFault(k, w) /\ hist' = Append(hist, <<6, k, w>>)
+       \/ \E k \in Ctxs : ArmCtx(k) /\ hist' = Append(hist, <<8, k>>)
+       \/ \E w \in 1..NWriters : NewTree(w) /\ hist' = Append(hist, <<9, w>>)
        \/ Tick /\ hist' = Append(hist, <<7, cell + 1>>)
 GSpec == GInit /\ [][GNext]_gvars
 
 Vector == [thr   |-> thr,
            ops   |-> hist,
            attrs |-> attrs,
-           rets  |-> rets,
+           rets  |-> [i \in 1..Len(rets) |-> rets[i].c],
+           tree  |-> tree,
+           tw    |-> twriter,
            live  |-> LiveKind,
            recs  |-> [r \in 1..Len(recs) |-> recs[r].attrs],
            out   |-> [i \in 1..Len(out) |->
